@@ -2,6 +2,8 @@
 From Coq Require Import QArith Lia.
 From Zeno Require Import Base Sort Expr ExprSpec ExprP DB DBP Tie Store StoreExprP.
 From Zeno Require Tree TreeP.
+From Zeno Require TieTree.
+From Zeno Require TreeStoreP.
 Local Open Scope Z_scope.
 
 (* a point with timestamp ts is counted in the period ending at the least multiple of the resolution >= ts, and in no other *)
@@ -85,6 +87,20 @@ Theorem C01_shipped_tree_refuted :
     /\ Tree.t_len t = 2.
 Proof. exact TreeP.shipped_update_refuted. Qed.
 
+(* the structure of bytetree.go the tree theorems speak about (branch chains of the edge loops of Tree.doUpdate and
+   Tree.Remove, who takes the key, Walk's queue) is the one the translator reads from /repo on this run *)
+Theorem C01_tree_source_as_modelled : TieTree.tree_source_as_modelled.
+Proof. exact TieTree.tree_source_as_modelled_holds. Qed.
+
+(* the memstore of the row-store model (Model/Store.v, an association list, over which C01_store_state / C01_store_value and
+   the C03 theorems are proved) is refined by the radix tree: for every sequence of inserts the tree built by Tree.Update
+   is well formed and reads, key by key, as the association list built by upsert *)
+Theorem C01_memstore_is_the_radix_tree : forall (cell:Type) (ins:list (list Z * (Seq.seq cell -> Seq.seq cell))),
+  let t := fold_left (fun t u => Tree.tupdate (TreeStoreP.lift cell (snd u)) (fst u) t) ins Tree.tnew in
+  let m := fold_left (fun m u => Store.upsert (list Z) TreeStoreP.kqb cell (fst u) (snd u) m) ins [] in
+  TreeP.wf_tree t /\ TreeStoreP.refines cell t m.
+Proof. exact TreeStoreP.memstore_refines. Qed.
+
 Print Assumptions C01_bucket.
 Print Assumptions C01_bucket_unique.
 Print Assumptions C01_one_row_per_group_period.
@@ -97,3 +113,5 @@ Print Assumptions C01_tree_is_a_map.
 Print Assumptions C01_tree_update.
 Print Assumptions C01_tree_walk_each_key_once.
 Print Assumptions C01_shipped_tree_refuted.
+Print Assumptions C01_tree_source_as_modelled.
+Print Assumptions C01_memstore_is_the_radix_tree.
